@@ -259,6 +259,9 @@ func runC17(c *Ctx) {
 						forced = nil
 					} else {
 						force = in
+						if !isFixedPast(p, arg) {
+							o.Fail(in.Pos(), "the deadline forced on cancellation is not a fixed instant in the past (it depends on the context or the clock): a context cancelled before its own deadline does not interrupt the operation")
+						}
 						if !ctxFired {
 							o.Fail(in.Pos(), "the past deadline is forced on a path where the context has not fired")
 						}
@@ -384,6 +387,9 @@ func runC17(c *Ctx) {
 			}
 			if !domU(g, s.IO) {
 				o.Fail(g.Pos(), "the watcher is not started before the I/O call")
+			}
+			if s.Mu != "" && !la.holdsOwner(g, s.T, true) {
+				o.Fail(g.Pos(), "the watcher is started before the %s mutex is taken: a queued operation whose context fires forces the past deadline on the operation that is running", s.Dir)
 			}
 		}
 		ob := c.Obl("R2b", fname(F), "lock balance on every path", 1)
@@ -519,4 +525,56 @@ func selCaseOnPath(p *upath, sel *ssa.Select) int {
 		}
 	}
 	return -1
+}
+
+// isFixedPast: v is a constant instant long ago: time.Unix(c1, c2) with small constants, directly or as the value a
+// package variable is initialised with and that nothing else assigns.
+func isFixedPast(p *Prog, v ssa.Value) bool {
+	v = strip(v)
+	isUnix := func(x ssa.Value) bool {
+		cl, ok := x.(*ssa.Call)
+		if !ok || callName(cl) != "time.Unix" {
+			return false
+		}
+		a, ok1 := constInt(cl.Call.Args[0])
+		_, ok2 := constInt(cl.Call.Args[1])
+		return ok1 && ok2 && a >= 0 && a < 1000000000
+	}
+	if isUnix(v) {
+		return true
+	}
+	ld, ok := v.(*ssa.UnOp)
+	if !ok || ld.Op != token.MUL {
+		return false
+	}
+	g, ok := ld.X.(*ssa.Global)
+	if !ok || g.Pkg == nil {
+		return false
+	}
+	okInit, bad := false, false
+	fns := []*ssa.Function{}
+	if ini := g.Pkg.Func("init"); ini != nil {
+		fns = append(fns, ini)
+	}
+	for _, f := range p.Funcs {
+		if f.Pkg == g.Pkg && f.Name() != "init" {
+			fns = append(fns, f)
+		}
+	}
+	for _, f := range fns {
+		for _, fn := range withClosures(f) {
+			instrsOf(fn, func(in ssa.Instruction) {
+				st, ok := in.(*ssa.Store)
+				if !ok || st.Addr != ssa.Value(g) {
+					return
+				}
+				if f.Name() == "init" && isUnix(st.Val) {
+					okInit = true
+				} else {
+					bad = true
+				}
+			})
+		}
+	}
+	return okInit && !bad
 }
